@@ -405,6 +405,16 @@ func RuleJSON(r *Report, p *Program) {
 					}
 				}
 				r.Check(ok, "J2", name+":json-layout", p.Pos(uj.Pos()), "writer {"+keysOf(wl)+"} ⊆ reader {"+keysOf(rl)+"}", "JSON writer layouts {"+keysOf(wl)+"} are not all accepted by the reader {"+keysOf(rl)+"}")
+				// the MST verb writes the zone abbreviation, which for unnamed zones is a numeric offset that may
+				// carry minutes (+0530, +0545, +0845); the MST verb parses letters and ±hh only (package time),
+				// so a reader of MST text needs the numeric-offset layout as well
+				for l := range wl {
+					if strings.Contains(l, "MST") {
+						alt := strings.Replace(l, "MST", "-0700", 1)
+						r.Check(rl[alt], "J2", name+":json-zone-offset", p.Pos(uj.Pos()), "reader also accepts "+alt,
+							"the writer emits the zone abbreviation ("+l+"): in zones without a name it is a numeric offset with minutes (e.g. +0530 in Asia/Colombo, +0545 in Asia/Kathmandu) which the reader's layouts {"+keysOf(rl)+"} cannot parse, so decode(encode(v)) fails there")
+					}
+				}
 			}
 			wf, rx := map[string]bool{}, map[string]bool{}
 			collectCallConsts(mj, "fmt.Sprintf", 0, wf, 0, p)
